@@ -92,6 +92,7 @@ def run(ctx, run):
 
     # ---- display side: cached row bytes only through the parity / Hamming decoders -------------------
     _raw_bytes_decoded(ctx, run)
+    _same_header_parity(ctx, run, P.need("same_header", UNIT))
 
 
 def _field(f, lhs):
@@ -455,3 +456,25 @@ def _raw_bytes_decoded(ctx, run):
                               "acts as a spacing attribute" % ex.pretty(f, i)[:60], ex.loc(f, i),
                               witness={"function": f.name, "consumer": ex.pretty(f, q)[:80] if q is not None else None})
     run.floor("reads of cached row bytes on the display side", n, 6)
+
+
+def _same_header_parity(ctx, run, f):
+    """The header comparison is conclusive only if *both* headers are free of parity errors: the error
+    word must accumulate vbi_unpar8 over the bytes of the current and of the reference header."""
+    run.touch(f)
+    roots = set()
+    for bid, i in flow.all_events(f):
+        e = f.exprs[i]
+        if e["k"] == "call" and e.get("callee") == "vbi_unpar8" and e.get("c"):
+            r = ex.root(f, e["c"][0])
+            if r is not None:
+                roots.add(f.exprs[r]["name"])
+    cur, ref = f.params[1]["name"], f.params[3]["name"]
+    key = "RF-DEP:same_header:parity-of-both-headers"
+    if {cur, ref} <= roots:
+        run.holds("RF-DEP", key, "vbi_unpar8 is applied to the bytes of both `%s` and `%s`" % (cur, ref), "%s:%d" % (f.file, f.line))
+    else:
+        run.violation("RF-DEP", key, "the parity of the %s header is never tested (vbi_unpar8 is applied to %s only): a received "
+                      "header with a parity error is compared as if it were intact, found different, and taken for another "
+                      "station - the cache is flushed" % ("current" if cur not in roots else "reference", sorted(roots) or "nothing"),
+                      "%s:%d" % (f.file, f.line), witness={"checked": sorted(roots)})
